@@ -1032,7 +1032,7 @@ def c02_cross_session_case(tid, phases):
     return run, False, drained, done > 0
 
 
-def c02_reconnect_replay_case(tid, victim, keep, order):
+def c02_reconnect_replay_case(tid, victim, keep, order, nmsgs=2):
     """After an honest exchange the server drops the victim's connection; when the client has reconnected and re-opened
     its mailbox, the server replays the stored messages of the peer selectively (`keep`: the phases it delivers again) and
     in the order it likes (`order`: "stored" / "pake-last" / "reversed").  Nothing may reach the application twice."""
@@ -1042,9 +1042,9 @@ def c02_reconnect_replay_case(tid, victim, keep, order):
         run.apply({"a": "ConnOpen", "c": c})
         run.apply({"a": "AppSetCode", "c": c, "code": "4-alpha-beta"})
     for c in ("A", "B"):
-        for k in range(2):
+        for k in range(nmsgs):
             run.apply({"a": "AppSend", "c": c, "data": ("m:%s:%d" % (c, k)).encode().hex()})
-    run.drain()
+    run.drain(limit=400 + 40 * nmsgs)
     cl = w.clients[victim]
     conn = w.live_conn(cl)
     if conn is None:
@@ -1078,7 +1078,7 @@ def c02_reconnect_replay_case(tid, victim, keep, order):
                 conn.s2c[pos] = fr
             run.tracker.order_preserving = False
             run.tracker.tampered = True
-    drained = run.drain()
+    drained = run.drain(limit=400 + 40 * nmsgs)
     return run, False, drained
 
 
@@ -1694,6 +1694,19 @@ def run_pipeline(prop, tier, v, quick):
                             continue
                         runs[tid] = run_
                         records.append(run_.finish(drained, goal=False))
+            # long sessions: whatever a client remembers about what it has already processed must not wear out with the number
+            # of messages (70 and 150 from each side before the replay)
+            for victim, keep, nm in (("A", None, 70), ("B", ("version",), 70), ("A", ("pake", "version"), 150)):
+                tid += 1
+                nrr += 1
+                try:
+                    kp = keep if keep is not None else tuple(["pake", "version"] + [str(i) for i in range(nm)])
+                    run_, goal, drained = c02_reconnect_replay_case(tid, victim, kp, "stored", nmsgs=nm)
+                except Exception as e:
+                    cov.setdefault("family_errors", []).append(repr(e)[:120])
+                    continue
+                runs[tid] = run_
+                records.append(run_.finish(drained, goal=False))
             cov["c02_reconnect_replay_cases"] = nrr
             npre = nok = 0
             for n_ in (0, 1, 2):
